@@ -398,12 +398,18 @@ def run(ctx):
     grv = nvt.methods.get("get_reg_value")
     ok = ok and grv is not None and any(A.norm(r.value) == f"self._register_values[{A.param_names(grv)[1]}]" for r in A.returns(grv))
     ctx.check("C08.V", "two-qubit-dispatch:reads-tracked-values", ok, "the two-qubit dispatch does not read the tracked register values (anchor changed)", repo.loc(m, h2) if h2 else "", trivial=True)
+    # "the same quantum state": every expansion the rewrite inserts implements the gate it replaces (the rules of C07, under this id)
+    from . import c07
+    c07.check_decompositions(ctx, "C08.D")
     # 0 is an ordinary id / value / address: nothing int-valued may be tested by truthiness (nqsa/truth.py)
     from .. import truth
     truth.check(ctx, "C08.Z", ['netqasm.sdk.transpile'])
     # a value remembered for later calls is keyed by every argument it depends on (nqsa/memo.py)
     from .. import memo
     memo.check(ctx, "C08.K", ['netqasm.sdk.transpile'])
+    # no type test that an earlier type test has already decided (a subclass tested after its base class: nqsa/shadow.py)
+    from .. import shadow
+    shadow.check(ctx, "C08.H", ['netqasm.sdk.transpile'])
 
 
 def check_scratch(ctx, nvt, rw):
